@@ -181,3 +181,43 @@ pub fn reference_verify(transcript: &Transcript, st: &RangeStatement<RistrettoPo
     }
     Some(lhs == rhs)
 }
+
+
+/// the documented generator derivation, computed independently of the library:
+/// G_j[i] / H_j[i] = hash-to-group(block i of SHAKE256("GeneratorsChain" || 'G'/'H' || LE32(j))), blinding generator k =
+/// hash-to-group(SHA3-512("RISTRETTO_MASKING_BASEPOINT_" || decimal(k+1))), value generator = Ristretto basepoint
+pub fn reference_generators(n: usize, cap: usize, x: usize) -> serde_json::Value {
+    use sha3::digest::{ExtendableOutput, Update, XofReader};
+    let chain = |tag: u8, party: u32, count: usize| -> Vec<String> {
+        let mut sh = sha3::Shake256::default();
+        sh.update(b"GeneratorsChain");
+        let mut label = vec![tag];
+        label.extend_from_slice(&party.to_le_bytes());
+        sh.update(&label);
+        let mut rd = sh.finalize_xof();
+        (0..count)
+            .map(|_| {
+                let mut b = [0u8; 64];
+                rd.read(&mut b);
+                RistrettoPoint::from_uniform_bytes(&b).compress().as_bytes().iter().map(|x| format!("{:02x}", x)).collect()
+            })
+            .collect()
+    };
+    let mut gi = Vec::new();
+    let mut hi = Vec::new();
+    for j in 0..cap {
+        gi.extend(chain(b'G', j as u32, n));
+        hi.extend(chain(b'H', j as u32, n));
+    }
+    let g: Vec<String> = (0..x)
+        .map(|k| {
+            use sha3::Digest;
+            let mut h = sha3::Sha3_512::default();
+            Digest::update(&mut h, format!("RISTRETTO_MASKING_BASEPOINT_{}", k + 1).as_bytes());
+            let out: [u8; 64] = h.finalize().into();
+            RistrettoPoint::from_uniform_bytes(&out).compress().as_bytes().iter().map(|x| format!("{:02x}", x)).collect()
+        })
+        .collect();
+    let h: String = curve25519_dalek::constants::RISTRETTO_BASEPOINT_COMPRESSED.as_bytes().iter().map(|x| format!("{:02x}", x)).collect();
+    serde_json::json!({"gi": gi, "hi": hi, "g": g, "h": h})
+}
